@@ -219,6 +219,15 @@ def _prepare(job):
     except Exception as e:
         r.out = None
         r.problems.append(('X0', 'printer raised %s: %s' % (type(e).__name__, e)))
+    # the property's own sequence, with nothing in between: parse -> print -> parse (the second parse is judged later)
+    r.reparse = None
+    if r.parsed and r.out is not None:
+        try:
+            r.reparse = ('ok', parse(r.out, wc))
+        except RecursionError:
+            r.reparse = ('recursion', None)
+        except Exception as e:
+            r.reparse = ('err', e)
     return r
 
 
@@ -272,12 +281,21 @@ def _judge(r, spec_out, tk_out, tk_orig):
         want, removed_want = norm_tree(want_raw, drop)
     # 1/2: the real parser on the output
     tree2 = None
-    try:
-        tree2 = parse(r.out, r.wc)
-    except RecursionError:
+    rp = getattr(r, 'reparse', None)
+    if rp is None:
+        try:
+            rp = ('ok', parse(r.out, r.wc))
+        except RecursionError:
+            rp = ('recursion', None)
+        except Exception as e:
+            rp = ('err', e)
+    if rp[0] == 'recursion':
         r.parsed = False
         return
-    except Exception as e:
+    if rp[0] == 'ok':
+        tree2 = rp[1]
+    else:
+        e = rp[1]
         r.problems.append((P + '1', 'the parser rejects its own output: %s: %s' % (type(e).__name__, e)))
     removed_got = None
     if tree2 is not None:
@@ -697,6 +715,25 @@ for _f in EDGE_FORMS:
             continue
         EDGE.append(_f.replace('%s', _o))
 
+# statement boundaries: every way a statement can END (last token class; block-like statements take no `;`) next to every
+# way the following statement can START (the printers put a line break resp. nothing between them; the restricted
+# productions and the `(` `[` `+` `-` `/` `++` `--` continuation hazards of ASI live here), with and without a final `;`
+STMT_ENDS = [('a', 1), ('f()', 1), ('a[0]', 1), ('a++', 1), ('a--', 1), ('1', 1), ("'s'", 1), ('/r/', 1), ('this', 1), ('x = {}', 1),
+             ('x = function(){}', 1), ('var v', 1), ('var w = 1', 1), ('do x; while(y)', 1), ('debugger', 1), ('if (a) {}', 0),
+             ('if (a) {} else {}', 0), ('function g(){}', 0), ('while(a){}', 0), ('for(;;){}', 0), ('try{}catch(e){}', 0),
+             ('try{}finally{}', 0), ('switch(a){}', 0), ('l:{}', 0), ('{}', 0), ('{a}', 0), ('with(a){}', 0), (';', 0)]
+STMT_STARTS = ['/re/.test(a)', '/=re/.exec(b)', '++a', '--a', '+a', '-a', '(a)', '(function(){})()', '[a].b', 'a', 'function f(){}', '!a',
+               '~a', 'typeof a', "'s'.x", '1..x', '.5 + a', 'new A', 'this.x', '{}', '{b}', 'var v = 1', 'if (a) b', 'for(;;) c', 'l: d',
+               'delete a.b', 'void 0', 'do x; while(y)', 'while(a);', 'debugger', 'null', 'true', 'in_', 'instanceof_']
+PAIRS = []
+for _e, _semi in STMT_ENDS:
+    for _s in STMT_STARTS:
+        PAIRS.append('%s%s%s' % (_e, ';' if _semi else '', _s))                  # no final `;`: ASI at the end of input
+        PAIRS.append('%s%s\n%s;' % (_e, ';' if _semi else '', _s))
+SINGLES = []
+for _s in STMT_STARTS:
+    SINGLES += [_s, 'function h(){%s}' % _s, 'function h(){return\n%s}' % _s, 'while(a){break\n%s}' % _s]
+
 FIXED = [
     '', ';', 'a;', 'a', '{}', '{a;b}', 'var a;', 'var a = 1, b;', 'x = (a, b);', 'x = a ? b : c;', 'if (a) b;', 'if (a) b; else c;',
     'if (a) {} else if (b) {} else {}', 'for (;;) ;', 'for (a; b; c) d;', 'for (var i = 0, j = 1; i < j; i++) {}', 'for (a in b) c;',
@@ -732,6 +769,8 @@ def program_texts(ctx, label, n_g1, n_gen):
     texts = list(FIXED)
     # the edge-operand forms: all of them in the thorough tier, a seeded sample of a third otherwise
     texts += EDGE if ctx.tier == 'thorough' else rng.sample(EDGE, len(EDGE) // 3)
+    texts += SINGLES
+    texts += PAIRS if ctx.tier == 'thorough' else rng.sample(PAIRS, len(PAIRS) // 6)
     for e in corpus.extra(ctx.pid):
         texts.append(e['text'] if isinstance(e, dict) else e)
     g1 = corpus.g1_valid()
